@@ -20,7 +20,9 @@ VARIABLES
   mode,      \* "first": complete on the first confirmed upload; "all": await every attempted upload
   up,        \* Tor's truth: [Svcs -> [Dirs -> "none" | "started" | "ok" | "failed"]]
   replied,   \* the ADD_ONION reply has been processed (our address is known)
-  early,     \* own uploads Tor announced before the reply (not attributable by the client)
+  early,     \* own uploads Tor announced before the client could know the service's address (not attributable)
+  hostEarly, \* the service's address is known before the reply: a filesystem service on a directory Tor has used
+             \* before, whose hostname file is already there (a restart with the same keys)
   \* mechanism
   attempted, confirmed, failed,
   wait,      \* the upload wait: "p" | "ok" | "err"
@@ -29,14 +31,16 @@ VARIABLES
   created,   \* the creation result as seen by the caller: "p" | "ok" | "err"
   devUsed
 
-vars == <<mode, up, replied, early, attempted, confirmed, failed, wait, nfired, subscribed, created, devUsed>>
+vars == <<mode, up, replied, early, hostEarly, attempted, confirmed, failed, wait, nfired, subscribed, created, devUsed>>
 
 Init ==
   /\ mode \in {"first", "all"}
   /\ up = [s \in Svcs |-> [d \in Dirs |-> "none"]]
-  /\ replied = FALSE /\ early = {}
+  /\ replied = FALSE /\ early = {} /\ hostEarly \in BOOLEAN
   /\ attempted = {} /\ confirmed = {} /\ failed = {}
   /\ wait = "p" /\ nfired = 0 /\ subscribed = TRUE /\ created = "p" /\ devUsed = {}
+
+AddrKnown == replied \/ hostEarly      \* the client can attribute HS_DESC events to the service
 
 \* creation completes when both the reply and the upload wait are in
 Created(w, r) == IF w = "err" /\ r THEN "err" ELSE IF w = "ok" /\ r THEN "ok" ELSE "p"
@@ -48,15 +52,15 @@ Keep == UNCHANGED <<wait, nfired, subscribed, created>>
 Reply ==
   /\ ~replied /\ replied' = TRUE
   /\ created' = Created(wait, TRUE)
-  /\ UNCHANGED <<mode, up, early, attempted, confirmed, failed, wait, nfired, subscribed, devUsed>>
+  /\ UNCHANGED <<mode, up, early, hostEarly, attempted, confirmed, failed, wait, nfired, subscribed, devUsed>>
 
 Upload(s, d) ==
   /\ up[s][d] = "none"
   /\ up' = [up EXCEPT ![s][d] = "started"]
-  /\ IF subscribed /\ s = "me" /\ replied
+  /\ IF subscribed /\ s = "me" /\ AddrKnown
      THEN attempted' = attempted \cup {d} /\ UNCHANGED early
-     ELSE UNCHANGED attempted /\ early' = IF s = "me" /\ ~replied THEN early \cup {d} ELSE early
-  /\ Keep /\ UNCHANGED <<mode, replied, confirmed, failed, devUsed>>
+     ELSE UNCHANGED attempted /\ early' = IF s = "me" /\ ~AddrKnown THEN early \cup {d} ELSE early
+  /\ Keep /\ UNCHANGED <<mode, replied, hostEarly, confirmed, failed, devUsed>>
 
 AllIn(c, f, a) == Cardinality(c) + Cardinality(f) = Cardinality(a)
 
@@ -72,18 +76,18 @@ Uploaded(s, d) ==
              /\ IF wait = "p" /\ (mode = "first" \/ AllIn(confirmed \cup {d}, failed, attempted))
                 THEN Resolve("ok") ELSE Keep
         ELSE UNCHANGED <<confirmed, devUsed>> /\ Keep
-  /\ UNCHANGED <<mode, replied, early, attempted, failed>>
+  /\ UNCHANGED <<mode, replied, early, hostEarly, attempted, failed>>
 
 Failed(s, d) ==
   /\ up[s][d] = "started"
   /\ up' = [up EXCEPT ![s][d] = "failed"]
-  /\ IF subscribed /\ s = "me" /\ replied
+  /\ IF subscribed /\ s = "me" /\ AddrKnown
      THEN /\ failed' = failed \cup {d}
           /\ IF wait = "p" /\ (failed \cup {d}) = attempted THEN Resolve("err")
              ELSE IF wait = "p" /\ mode = "all" /\ confirmed # {} /\ AllIn(confirmed, failed \cup {d}, attempted) THEN Resolve("ok")
              ELSE Keep
      ELSE UNCHANGED failed /\ Keep
-  /\ UNCHANGED <<mode, replied, early, attempted, confirmed, devUsed>>
+  /\ UNCHANGED <<mode, replied, early, hostEarly, attempted, confirmed, devUsed>>
 
 Next ==
   \/ Reply
@@ -107,7 +111,7 @@ Unsubscribed == (wait # "p") => ~subscribed
 \* C15 (progress at quiescence, regular histories): while the wait is pending something is still
 \* outstanding; i.e. it completes as soon as it may and fails as soon as every attempted upload failed
 PendingMeansOutstanding ==
-  Ok((Regular /\ replied /\ wait = "p") =>
+  Ok((Regular /\ AddrKnown /\ wait = "p") =>
         /\ (OwnAnnounced = {} \/ OwnStarted # {})
         /\ (mode = "first" => OwnOk = {}))
 \* C15 (action properties): at the moment of completion in await-all mode nothing is outstanding;
